@@ -9,8 +9,9 @@
      Succ now      onSuccess()
    [now] is the value nowFunc() returned inside the critical section.
 
-   The model follows the code WITH the two fixes fixes/C13-*.diff applied; the behaviour of the
-   code before the fixes is kept as [penalty_ns_orig] / [floor_orig] / [step_orig]. *)
+   The model follows the code after the two fixes (/repo commits d903137 and ba3b6ba, patches in
+   fixes/C13-*.diff); the behaviour of the code before them is kept as [penalty_ns_orig] /
+   [floor_orig] / [step_orig], with witness lemmas ..._orig_refuted in BucketProofs.v. *)
 From Coq Require Export ZArith QArith Qminmax Qpower List Bool.
 Export ListNotations.
 Open Scope Z_scope.
